@@ -25,7 +25,7 @@ Extraction "model.ml"
   sx_run sx_step sx_init
   sstep srun sspec symw_init first_times
   fdecode fof_int fcompare ftruth wfcompare wfcompare_negating
-  image sandbox_static_cast sandbox_ptr_cast
+  image sandbox_static_cast sandbox_ptr_cast sandbox_static_cast_mem sandbox_ptr_cast_mem opaque_to_sbx
   vrun cv_value cv_ptr cv_range cv_string_unique cv_string_std cmda cstrlen apply_muts cv_buffer_address cv_address cv_ptr_cell usp_cell cv_string_std_cell cv_string_unique_cell cv_range_cell cv_string_unique_cell_refetch cv_struct_ptr_cell
   cop cuop wbin wcompound ccompound cincdec wincdec code_postdec_ok common promote
   bytes_le le_val write read encode decode store_int load_int load_cv_ptr load_range range_footprint range_checked
